@@ -3,6 +3,7 @@ package main
 import (
 	"fmt"
 	"math"
+	"runtime"
 	"sort"
 	"sync"
 	"time"
@@ -20,6 +21,7 @@ func runC19(c *mon.Ctx) {
 	c.Cases(func(i int, r *mon.Rand) {
 		c19Plain(c, r.Fork(1))
 		c19Cached(c, r.Fork(2))
+		c19OddChildren(c, r.Fork(4))
 		if i%4 == 0 || c.Race {
 			c19Concurrent(c, r.Fork(3))
 		}
@@ -438,9 +440,21 @@ func c19Concurrent(c *mon.Ctx, r *mon.Rand) {
 		}
 		recs[i] = rec
 	}
+	// the children's answers about their capabilities take a moment (they yield
+	// the processor), and only the last child lacks a capability: every answer
+	// of the multi reporter, fresh or kept from an earlier call, says the
+	// conjunction - also while other goroutines are asking
+	wantRep, wantTag := r.Bool(), r.Bool()
+	for i, rec := range recs {
+		if i == len(recs)-1 {
+			rec.Caps = c19SlowCaps{wantRep, wantTag}
+		} else {
+			rec.Caps = c19SlowCaps{true, true}
+		}
+	}
 	G := r.Range(2, 6)
 	per := r.Range(5, 40)
-	desc := map[string]interface{}{"flavour": map[bool]string{true: "cached", false: "plain"}[cached], "children": n, "goroutines": G, "calls_per_goroutine": per}
+	desc := map[string]interface{}{"flavour": map[bool]string{true: "cached", false: "plain"}[cached], "children": n, "goroutines": G, "calls_per_goroutine": per, "last_child_capabilities": fmt.Sprint(wantRep, "/", wantTag)}
 	c.Eval(1)
 	stop := c.Watchdog(300*time.Second, "no-progress", desc)
 	defer stop()
@@ -484,8 +498,26 @@ func c19Concurrent(c *mon.Ctx, r *mon.Rand) {
 				add(mon.Event{Kind: mon.EvAllocTimer, Name: name, Tags: tags})
 			}
 			start.Wait()
+			var kept tally.Capabilities
 			for i := 0; i < per; i++ {
 				v := int64(g)<<32 | int64(i)
+				{
+					var cp tally.Capabilities
+					if cached {
+						cp = mc.Capabilities()
+					} else {
+						cp = mp.Capabilities()
+					}
+					for _, x := range []tally.Capabilities{cp, kept} {
+						if x == nil {
+							continue
+						}
+						if a, b := x.Reporting(), x.Tagging(); a != wantRep || b != wantTag {
+							panics.Store(g+1000, fmt.Sprintf("capabilities answered %v/%v while other goroutines were asking too, the conjunction of the children is %v/%v", a, b, wantRep, wantTag))
+						}
+					}
+					kept = cp
+				}
 				switch gr.Intn(4) {
 				case 0:
 					if cached {
@@ -522,6 +554,10 @@ func c19Concurrent(c *mon.Ctx, r *mon.Rand) {
 	start.Done()
 	wg.Wait()
 	panics.Range(func(k, v interface{}) bool {
+		if g, _ := k.(int); g >= 1000 {
+			c.Violation("multi-capabilities-concurrent", map[string]interface{}{"why": v, "case": desc})
+			return true
+		}
 		c.Violation("panic-multi-concurrent", map[string]interface{}{"why": v, "case": desc})
 		return true
 	})
@@ -558,3 +594,126 @@ func c19Concurrent(c *mon.Ctx, r *mon.Rand) {
 	}
 	c.Distinct(mon.Hash64("conc", fmt.Sprint(desc), fmt.Sprint(r.U64())))
 }
+
+// c19FuncChild and c19SliceChild are children handed over by value whose
+// dynamic types cannot be compared or hashed (a func and a slice field).
+type c19FuncChild struct {
+	*mon.PlainRec
+	note func()
+}
+type c19SliceChild struct {
+	*mon.CachedRec
+	note []int
+}
+
+// c19OddChildren: one child instance given in two slots (it is called once
+// per slot, flushes included) next to children that are struct values holding
+// a func or a slice. Slots: a, u1, b, a, u2.
+func c19OddChildren(c *mon.Ctx, r *mon.Rand) {
+	cachedFlavour := r.Bool()
+	var ops []string
+	desc := func() interface{} {
+		return map[string]interface{}{"flavour": map[bool]string{false: "plain", true: "cached"}[cachedFlavour], "slots": "a, u1 (struct value with a func/slice field), b, a again, u2 (another such value)", "ops": ops}
+	}
+	var recs []*mon.Recorder // per slot
+	var callP tally.StatsReporter
+	var callC tally.CachedStatsReporter
+	c.Guard("panic-multi", desc, func() {
+		if cachedFlavour {
+			a, b := mon.NewCachedRec(true), mon.NewCachedRec(true)
+			u1, u2 := c19SliceChild{mon.NewCachedRec(true), []int{1}}, c19SliceChild{mon.NewCachedRec(true), nil}
+			recs = []*mon.Recorder{a.Recorder, u1.Recorder, b.Recorder, a.Recorder, u2.Recorder}
+			callC = multi.NewMultiCachedReporter(a, u1, b, a, u2)
+		} else {
+			a, b := mon.NewPlainRec(true), mon.NewPlainRec(true)
+			u1, u2 := c19FuncChild{mon.NewPlainRec(true), func() {}}, c19FuncChild{mon.NewPlainRec(true), nil}
+			recs = []*mon.Recorder{a.Recorder, u1.Recorder, b.Recorder, a.Recorder, u2.Recorder}
+			callP = multi.NewMultiReporter(a, u1, b, a, u2)
+		}
+		seen := map[*mon.Recorder]int{}
+		// after one call on the multi reporter: slot order a, u1, b, a, u2
+		check := func(call string, kind mon.EvKind) {
+			var seqs []int64
+			taken := map[*mon.Recorder]int{}
+			for slot, rec := range recs {
+				log, _, _ := rec.Snapshot()
+				var nw []mon.Event
+				for _, e := range log[seen[rec]:] {
+					if e.Kind == kind {
+						nw = append(nw, e)
+					}
+				}
+				want := 1
+				if slot == 0 || slot == 3 {
+					want = 2
+				}
+				if len(nw) != want {
+					c.Violation("multi-not-exactly-once", map[string]interface{}{"why": fmt.Sprintf("%s: the child in slot %d received %d %s calls, it occupies %d slot(s)", call, slot, len(nw), kind, want), "case": desc()})
+					return
+				}
+				seqs = append(seqs, nw[taken[rec]].Seq)
+				taken[rec]++
+			}
+			for i := 1; i < len(seqs); i++ {
+				if seqs[i] <= seqs[i-1] {
+					c.Violation("multi-order", map[string]interface{}{"why": fmt.Sprintf("%s: slot %d was called before slot %d", call, i, i-1), "case": desc()})
+				}
+			}
+			for _, rec := range recs {
+				seen[rec] = rec.LogLen()
+			}
+			c.Event("child-calls-checked", int64(len(recs)))
+		}
+		var cnt tally.CachedCount
+		var bkt tally.CachedHistogramBucket
+		if cachedFlavour {
+			cnt = callC.AllocateCounter("c", map[string]string{"k": "v"})
+			ops = append(ops, "AllocateCounter")
+			check("AllocateCounter", mon.EvAllocCounter)
+			h := callC.AllocateHistogram("h", nil, tally.ValueBuckets{1, 2})
+			ops = append(ops, "AllocateHistogram")
+			check("AllocateHistogram", mon.EvAllocHist)
+			bkt = h.ValueBucket(1, 2)
+			for _, rec := range recs {
+				seen[rec] = rec.LogLen()
+			}
+		}
+		for k, n := 0, r.Range(2, 12); k < n; k++ {
+			switch r.Intn(3) {
+			case 0:
+				ops = append(ops, "Flush()")
+				if cachedFlavour {
+					callC.Flush()
+				} else {
+					callP.Flush()
+				}
+				check("Flush()", mon.EvFlush)
+			case 1:
+				if cachedFlavour {
+					ops = append(ops, "counter handle ReportCount(3)")
+					cnt.ReportCount(3)
+				} else {
+					ops = append(ops, "ReportCounter(c,nil,3)")
+					callP.ReportCounter("c", nil, 3)
+				}
+				check("counter report", mon.EvCounter)
+			default:
+				if cachedFlavour {
+					ops = append(ops, "bucket handle ReportSamples(2)")
+					bkt.ReportSamples(2)
+				} else {
+					ops = append(ops, "ReportHistogramValueSamples(h,nil,{1,2},1,2,2)")
+					callP.ReportHistogramValueSamples("h", nil, tally.ValueBuckets{1, 2}, 1, 2, 2)
+				}
+				check("histogram samples report", mon.EvHistV)
+			}
+		}
+	})
+	c.Class("histories-with-a-repeated-child-and-unhashable-children", 1)
+}
+
+// c19SlowCaps is a capabilities answer that takes a moment to read.
+type c19SlowCaps struct{ rep, tag bool }
+
+func (x c19SlowCaps) Reporting() bool { runtime.Gosched(); return x.rep }
+func (x c19SlowCaps) Tagging() bool   { runtime.Gosched(); return x.tag }
